@@ -137,6 +137,7 @@ type B struct {
 	True    *Node
 	False   *Node
 	bitMemo map[[2]int]*Node
+	extMemo map[[3]int]*Node
 	Vars    []*Node // all variables in creation order
 	varByNm map[string]*Node
 	Apps    []*Node // all UF applications
@@ -144,7 +145,7 @@ type B struct {
 }
 
 func NewB() *B {
-	b := &B{tab: map[key]*Node{}, bitMemo: map[[2]int]*Node{}, varByNm: map[string]*Node{}}
+	b := &B{tab: map[key]*Node{}, bitMemo: map[[2]int]*Node{}, extMemo: map[[3]int]*Node{}, varByNm: map[string]*Node{}}
 	b.True = b.mk(&Node{Op: OpConst, W: 0, K: 1})
 	b.False = b.mk(&Node{Op: OpConst, W: 0, K: 0})
 	return b
@@ -614,6 +615,22 @@ func (b *B) AShr(x, y *Node) *Node {
 }
 
 func (b *B) Extract(x *Node, hi, lo int) *Node {
+	if lo == 0 && hi-lo+1 == x.W {
+		return x
+	}
+	if x.Op == OpConst || x.Op == OpVar {
+		return b.extract(x, hi, lo)
+	}
+	k := [3]int{x.ID, hi, lo}
+	if r, ok := b.extMemo[k]; ok {
+		return r
+	}
+	r := b.extract(x, hi, lo)
+	b.extMemo[k] = r
+	return r
+}
+
+func (b *B) extract(x *Node, hi, lo int) *Node {
 	w := hi - lo + 1
 	if lo == 0 && w == x.W {
 		return x
